@@ -147,7 +147,7 @@ pub fn c10(g: &mut G) {
     let sets = key_sets(g);
     let stride = if g.thorough { 1 } else { 4 };
     for (i, (label, keys)) in sets.iter().enumerate() {
-        if i % stride != 0 && !label.starts_with("fan") {
+        if i % stride != 0 && !label.starts_with("fan") && label != "allbytes" && label != "cutoff" {
             continue;
         }
         let kv = values(keys, (i * 3) % VALUE_PATTERNS, &mut g.rng);
